@@ -83,6 +83,7 @@ func checkC16(w *World, r *Report) {
 	c16CrashSurface(w, r)
 	if a := w.FsmAnchors(); len(a.Problems) == 0 && a.Update != nil {
 		c02Readonly(w, r, a, "C16.g", "g-readonly-classification")
+		c16ApplyErrors(w, r, a)
 	}
 }
 
@@ -540,11 +541,29 @@ func c16Status(w *World, r *Report) {
 		// error-mapping helper the handler hands the service error to
 		scanNotFound := func(l Lit, succ *ssa.BasicBlock, ei int) {
 			if l.Kind == "eq" && !l.Neg && strings.HasPrefix(l.A, "svc") && strings.Contains(l.B, "ErrTableNotFound") {
-				ret, ok := succ.Instrs[len(succ.Instrs)-1].(*ssa.Return)
-				if !ok || statusCodeOf(retVal(ret, ei)) != nf {
+				// every feasible way on from the edge ends in a return of the NotFound status (the
+				// status may travel through a variable: phis are resolved along the path)
+				good, n := true, 0
+				var at token.Pos
+				for _, path := range enumPaths(succ, 400) {
+					if !pathFeasible(path) {
+						continue
+					}
+					last := path[len(path)-1]
+					ret, isRet := last.Instrs[len(last.Instrs)-1].(*ssa.Return)
+					if !isRet {
+						continue
+					}
+					n++
+					at = ret.Pos()
+					if statusCodeOf(resolveAlong(retVal(ret, ei), path, len(path)-1)) != nf {
+						good = false
+					}
+				}
+				if !good || n == 0 {
 					ob.Violate("not-found-code@"+hn, blockPos(succ), hn+" does not answer an unknown table with codes.NotFound")
 				} else {
-					ob.Site(ret.Pos(), hn+" maps ErrTableNotFound to NotFound")
+					ob.Site(at, hn+" maps ErrTableNotFound to NotFound")
 				}
 			}
 		}
@@ -1139,26 +1158,49 @@ func c16Allocations(w *World, ob *Ob, reach map[*ssa.Function]bool) {
 					continue
 				}
 				n++
-				if nonNegative(sz, 0) {
+				// bounded above: a wire-controlled size is a crash (cap out of range) or an
+				// out-of-memory kill as well when it is huge
+				if !boundedAbove(sz, 0) {
+					ob.Violate("unbounded-make@"+FnName(fn), in.Pos(), "make() with size `"+Expr(sz)+"` that has no upper bound in sight (not a constant, a length, or a minimum with one) on a request path: a huge wire value (a range limit of MaxInt64) panics with `makeslice: cap out of range` or exhausts memory")
 					continue
 				}
-				// guarded? every path to the make crosses an edge establishing size >= 0
-				ctx := &ExprCtx{}
-				lin, okL := ctx.linear(sz)
-				guarded := false
-				if okL {
-					if need, okN := intLit(lin, token.GEQ); okN {
-						wk := &Walk{Target: func(x ssa.Instruction) bool { return x == in }, EdgeOK: func(b *ssa.BasicBlock, k int) bool {
-							for _, l := range ctx.EdgeLits(b, k) {
-								if l.Implies(need) {
-									return false
-								}
-							}
-							return true
-						}}
-						guarded = wk.Find(entry(fn)) == nil
+				// guarded? every path to the make crosses an edge establishing size >= 0 (for a
+				// minimum: each operand on its own)
+				var proven func(v ssa.Value, d int) bool
+				proven = func(v ssa.Value, d int) bool {
+					if nonNegative(v, 0) {
+						return true
 					}
+					ctx := &ExprCtx{}
+					if lin, okL := ctx.linear(v); okL {
+						if need, okN := intLit(lin, token.GEQ); okN {
+							wk := &Walk{Target: func(x ssa.Instruction) bool { return x == in }, EdgeOK: func(b *ssa.BasicBlock, k int) bool {
+								for _, l := range ctx.EdgeLits(b, k) {
+									if l.Implies(need) {
+										return false
+									}
+								}
+								return true
+							}}
+							if wk.Find(entry(fn)) == nil {
+								return true
+							}
+						}
+					}
+					if call, ok := v.(*ssa.Call); ok && d < 3 && CalleeName(&call.Call) == "builtin.min" {
+						for _, a := range call.Call.Args {
+							if !proven(a, d+1) {
+								return false
+							}
+						}
+						return true
+					}
+					if cv, ok := v.(*ssa.Convert); ok && d < 3 {
+						return proven(cv.X, d+1)
+					}
+					return false
 				}
+				guarded := proven(sz, 0)
 				if !guarded {
 					ob.Violate("unbounded-make@"+FnName(fn), in.Pos(), "make() with size `"+Expr(sz)+"` that is not provably non-negative on a request path: a negative wire value (e.g. a nested range limit) panics the handler or the apply worker")
 				}
@@ -1166,6 +1208,112 @@ func c16Allocations(w *World, ob *Ob, reach map[*ssa.Function]bool) {
 		})
 	}
 	ob.SiteS("make() sizes examined on request paths: " + itoa(n))
+}
+
+// boundedAbove: syntactic proof that an integer value cannot be arbitrarily large: built from
+// constants, lengths and capacities (of data already in memory), minima with such a value, sums
+// and products of such values. A captured variable is looked through to what was stored in it.
+func boundedAbove(v ssa.Value, depth int) bool {
+	if depth > 8 {
+		return false
+	}
+	switch x := v.(type) {
+	case *ssa.Const:
+		return true
+	case *ssa.Convert:
+		return boundedAbove(x.X, depth+1)
+	case *ssa.ChangeType:
+		return boundedAbove(x.X, depth+1)
+	case *ssa.Call:
+		switch CalleeName(&x.Call) {
+		case "builtin.len", "builtin.cap":
+			return true
+		case "builtin.min":
+			for _, a := range x.Call.Args {
+				if boundedAbove(a, depth+1) {
+					return true
+				}
+			}
+			return false
+		case "builtin.max":
+			for _, a := range x.Call.Args {
+				if !boundedAbove(a, depth+1) {
+					return false
+				}
+			}
+			return true
+		}
+		// sizes computed by the message itself (SizeVT and the like) are lengths of data in memory
+		if x.Call.IsInvoke() {
+			return strings.HasPrefix(x.Call.Method.Name(), "Size") || x.Call.Method.Name() == "Len"
+		}
+		if cal := StaticCallee(&x.Call); cal != nil {
+			return strings.HasPrefix(cal.Name(), "Size") || cal.Name() == "Len" || strings.HasSuffix(cal.Name(), "Len")
+		}
+		return false
+	case *ssa.BinOp:
+		switch x.Op {
+		case token.ADD, token.MUL, token.SUB, token.QUO, token.REM, token.SHL, token.SHR, token.AND:
+			if x.Op == token.QUO || x.Op == token.REM || x.Op == token.SHR || x.Op == token.AND {
+				return boundedAbove(x.X, depth+1) || boundedAbove(x.Y, depth+1)
+			}
+			return boundedAbove(x.X, depth+1) && boundedAbove(x.Y, depth+1)
+		}
+		return false
+	case *ssa.Phi:
+		for _, e := range x.Edges {
+			if e == ssa.Value(x) {
+				continue
+			}
+			if !boundedAbove(e, depth+1) {
+				return false
+			}
+		}
+		return true
+	case *ssa.UnOp:
+		if x.Op == token.MUL {
+			switch a := x.X.(type) {
+			case *ssa.FreeVar:
+				if b := closureBinding(a.Parent(), a); b != nil {
+					if al, ok := b.(*ssa.Alloc); ok && al.Parent() != nil {
+						for _, st := range storesTo(al.Parent(), al) {
+							if !boundedAbove(st.Val, depth+1) {
+								return false
+							}
+						}
+						return true
+					}
+				}
+				return false
+			case *ssa.Alloc:
+				if a.Parent() == nil {
+					return false
+				}
+				sts := storesTo(a.Parent(), a)
+				if len(sts) == 0 {
+					return false
+				}
+				for _, st := range sts {
+					if !boundedAbove(st.Val, depth+1) {
+						return false
+					}
+				}
+				return true
+			case *ssa.Global:
+				return true // configuration, not the wire
+			case *ssa.FieldAddr:
+				// a field of a module struct that is not a wire message: configuration / own state
+				if n, ok := deref(a.X.Type()).(*types.Named); ok && n.Obj().Pkg() != nil {
+					return n.Obj().Pkg().Path() != pbPkg
+				}
+				return false
+			}
+		}
+		return false
+	case *ssa.Extract:
+		return false
+	}
+	return false
 }
 
 var nnAssumed = map[*ssa.Phi]bool{}
@@ -1271,4 +1419,71 @@ func nonNegative(v ssa.Value, depth int) bool {
 		}
 	}
 	return false
+}
+
+// applyErrorReviewed: the error returns on the apply path that were read and found not to depend
+// on the content of a request (function | what is returned → why it is not request content).
+var applyErrorReviewed = map[string]string{
+	"(storage/table/key.Encoder).Encode|the sentinel storage/table/key.ErrUnknownKeyVersion": "the version of the key being encoded is a constant the state machine sets (key.LatestVersion), never a wire value",
+	"storage/table/key.DecodeBytes|the sentinel storage/table/key.ErrMissingKeyHeader":       "decoding a key read back from the DB: a corrupted store, not a request",
+	"storage/table/key.DecodeBytes|the sentinel storage/table/key.ErrUnknownKeyVersion":      "decoding a key read back from the DB: a corrupted store, not a request",
+}
+
+// c16ApplyErrors: nothing on the apply path turns the content of a committed command into an error.
+func c16ApplyErrors(w *World, r *Report, a *FsmA) {
+	ob := r.Ob("C16.h", "h-apply-never-refuses", "no module function reachable from the state machine's Update returns an error it made itself (a sentinel variable, errors.New, fmt.Errorf, a status error): every error on the apply path is handed on from Pebble, the key encoder's writer or a (un)marshal call", "an error returned from Update is fatal for dragonboat (the apply worker panics), on every replica and again on every restart: a request that passed the API and was committed must be applied, so validation belongs in front of the proposal, never behind it")
+	n := 0
+	for _, fn := range sortedFuncs(a.applyReach()) {
+		if isGenerated(fn) || fn.Synthetic != "" || errorResultIndex(fn) < 0 {
+			continue
+		}
+		ei := errorResultIndex(fn)
+		eachInstr(fn, func(in ssa.Instruction) {
+			ret, ok := in.(*ssa.Return)
+			if !ok || len(ret.Results) <= ei {
+				return
+			}
+			n++
+			var made func(v ssa.Value, d int) string
+			made = func(v ssa.Value, d int) string {
+				if d > 6 {
+					return ""
+				}
+				switch x := v.(type) {
+				case *ssa.UnOp:
+					if g, ok := x.X.(*ssa.Global); ok && x.Op == token.MUL {
+						return "the sentinel " + globalName(g)
+					}
+				case *ssa.MakeInterface:
+					return made(x.X, d+1)
+				case *ssa.ChangeInterface:
+					return made(x.X, d+1)
+				case *ssa.Phi:
+					for _, e := range x.Edges {
+						if m := made(e, d+1); m != "" {
+							return m
+						}
+					}
+				case *ssa.Call:
+					switch n := CalleeName(&x.Call); n {
+					case "errors.New", "fmt.Errorf", "google.golang.org/grpc/status.Error", "google.golang.org/grpc/status.Errorf", "github.com/cockroachdb/errors.New", "github.com/cockroachdb/errors.Errorf":
+						return "a new error (" + n + ")"
+					}
+				}
+				return ""
+			}
+			if m := made(retVal(ret, ei), 0); m != "" {
+				ob.Site(in.Pos(), FnName(fn)+" returns "+m)
+				if why, ok := applyErrorReviewed[FnName(fn)+"|"+m]; ok {
+					ob.SiteS("reviewed: " + FnName(fn) + " / " + m + " - " + why)
+					return
+				}
+				ob.Violate("apply-path-makes-error@"+FnName(fn), in.Pos(), FnName(fn)+", reachable from Update, returns "+m+": a committed command that triggers it crashes every replica that applies it")
+			}
+		})
+	}
+	ob.SiteS("error returns examined on the apply path: " + itoa(n))
+	if n == 0 {
+		ob.Undecided("shape", "no error return on the apply path")
+	}
 }
